@@ -6,7 +6,9 @@ from .. import condutil as cu
 
 RULE = ("cases = (variant plain/exp/time, family full/DTC/Cholesky-latent, kernel tree, data, values (1-3 columns), mu, "
         "jitter, sigma form {0, <sqrt(jitter), scalar, vector, None}, y_is_mean, inducing points m<n / m=n / m>n, optional "
-        "precomputed factor, query set); sharp stream: cond <= ~1e6, wide stream: jitter down to 1e-8, near-duplicates; "
+        "precomputed factor, query set); a sigma vector of the DTC family has one entry per CELL for every number of "
+        "landmarks (a vector of another length must be refused with ValueError); always-run regression cases: landmarks = "
+        "cells / m<n / m>n with a non-constant per-cell sigma against the full model and the heteroscedastic DTC system; sharp stream: cond <= ~1e6, wide stream: jitter down to 1e-8, near-duplicates; "
         "non-trivial = predictor built and at least one query row differs from mu; distinct = hash of the full payload")
 PARTIAL = ["float64 rounding of the solves: compared within c*eps*cond(system) of the exact solution of the stated normal "
            "equations (cond computed a posteriori from the implementation's own matrices)"]
@@ -16,12 +18,15 @@ TRUSTED_EXTRA = ["LAPACK potrf/trsm behind jnp.linalg.cholesky / solve_triangula
 CLAIM = {
     "text": "Lean theorems over R for all sizes, data, kernels and noise forms: chol? yields L with L L^T = A (Cholesky "
             "correctness proved for the executable algorithm), triangular solves are exact, hence the full-GP weights solve "
-            "(K+N) w = y - mu with N the stated regulariser per noise form, the DTC weights solve (L N L^T + Kuf Kfu) w = Kuf (y-mu), "
-            "the latent weights solve L^T w = z; mean(x*) = mu + sum_j k(x*,x_j) w_j row by row, so a row's value does not depend "
+            "(K+N) w = y - mu with N the stated regulariser per noise form, the DTC weights solve (L N L^T + Kuf Kfu) w = Kuf (y-mu) "
+            "for a scalar sigma / y_is_mean (dtc_weights_solve) and the heteroscedastic system (Kuu + jitter I + Kuf D^-1 Kfu) w = "
+            "Kuf D^-1 (y-mu), D = diag(max(sigma_i^2, jitter)), for a per-cell sigma vector (dtc_percell_weights_solve; a constant "
+            "vector gives the scalar's weights, dtc_const_vector_weights), the latent weights solve L^T w = z; mean(x*) = mu + sum_j k(x*,x_j) w_j row by row, so a row's value does not depend "
             "on the batch. Tied to /repo by building the 9 predictor classes through compute_conditional* and through the model "
             "driver on the same inputs, plus residual/normal-equation oracles on the implementation's own state.",
     "note": "LAPACK/XLA float64 execution is modelled away (tolerances proportional to eps*cond, measured a posteriori). "
-            "Vector sigma with landmarks m != n is a shape error of the implementation (recorded under C15).",
+            "A sigma vector with landmarks is the noise of the cells (one entry per cell, any number of landmarks; fixed defect "
+            "20d7957, signature C01:per-cell-sigma-landmarks); a vector of any other length is refused (ValueError).",
     "technique": "Lean 4 proof (Cholesky + triangular solve correctness by induction, matrix algebra) + differential "
                  "correspondence and normal-equation residual oracles",
 }
@@ -29,6 +34,8 @@ CLAIM = {
 
 def run_case(ctx, res, p):
     m = mellon()
+    if p.get("op") == "percell":
+        return run_percell(ctx, res, p)
     variant, family = p["variant"], p["family"]
     tree = totuple(p["tree"])
     X = np.asarray(p["X"], float)
@@ -68,11 +75,28 @@ def run_case(ctx, res, p):
     ycf = None if Lest is None else Lest * std[None, :]
     wu = unc is not None
     res.count("uncertainty_options=" + ("none" if unc is None else ("factor" if Lest is not None else "std")))
+    # DTC family: a sigma vector (values not the mean, no explicit factor) is the noise of the cells
+    per_cell = bool(family == "lm" and sigma is not None and np.ndim(sigma) == 1 and not y_is_mean and ycf is None)
+    wrong_len = bool(per_cell and sigma.shape[0] != n)
+    Dcell = None
+    if per_cell:
+        res.count("lm:per-cell-sigma:" + ("wrong-length" if wrong_len else
+                                          ("m<n" if Xu.shape[0] < n else "m=n" if Xu.shape[0] == n else "m>n")))
     if family == "full":
         if sigma is None and not y_is_mean and ycf is not None:
             Nmat = cu.noise_matrix(n, None, jitter, False, ycf=ycf)
         else:
             Nmat = None if (sigma is None and not y_is_mean) else cu.noise_matrix(n, sigma, jitter, y_is_mean)
+    elif family == "lm":
+        # scalar sigma / y_is_mean: regulariser sized by the landmarks; per-cell vector: D = diag(max(sigma_i^2, jitter)) on
+        # the CELLS (Nmat stays None, the reference system is built from Dcell below)
+        if per_cell:
+            Nmat = None
+            if not wrong_len:
+                Dcell = np.where(sigma ** 2 < jitter, jitter, sigma ** 2)
+        else:
+            Nmat = None if (sigma is None and not y_is_mean) else cu.noise_matrix(
+                Xu.shape[0], None if y_is_mean else sigma, jitter, y_is_mean)
     else:
         Nmat = None if (sigma is None and not y_is_mean) else cu.noise_matrix(Xu.shape[0], sigma, jitter, y_is_mean)
     if p.get("Lgiven") and Nmat is not None and family in ("full", "chol"):
@@ -125,7 +149,11 @@ def run_case(ctx, res, p):
         res.case(canon, False, sample)
         res.count("impl_refused=" + impl_status)
         # refusal must be the documented ValueError for a missing noise specification
-        if sigma is None and not y_is_mean and Lgiven is None and ycf is None:
+        if wrong_len:
+            if impl_status != "ValueError":
+                res.oracle_fail(f"a per-cell sigma of the wrong length raised {impl_status} instead of ValueError", p,
+                                signature="C01:per-cell-sigma-length")
+        elif sigma is None and not y_is_mean and Lgiven is None and ycf is None:
             if impl_status != "ValueError":
                 res.oracle_fail(f"missing noise specification raised {impl_status} instead of ValueError", p,
                                 signature="C01:refusal-class")
@@ -133,8 +161,8 @@ def run_case(ctx, res, p):
             # a factorisation may legitimately refuse a matrix that is not numerically positive definite (e.g. a nearly
             # singular kernel matrix plus a low-rank noise factor): `full_accepts_posdef` only promises acceptance of PD input
             legit = False
-            if impl_status == "ValueError" and Nmat is not None and Lgiven is None:
-                ev = np.linalg.eigvalsh(Kbb + Nmat)
+            if impl_status == "ValueError" and (Nmat is not None or Dcell is not None) and Lgiven is None:
+                ev = np.linalg.eigvalsh(Kbb + (Nmat if Nmat is not None else jitter * np.eye(Kbb.shape[0])))
                 legit = bool(ev[0] <= 1e4 * EPS * max(ev[-1], 1e-300))
                 res.count("impl_refused:not-numerically-PD=%s" % legit)
             if not legit:
@@ -144,6 +172,11 @@ def run_case(ctx, res, p):
         return
 
     # ---------------- oracle on the implementation
+    if wrong_len:
+        res.case(canon, False, sample)
+        res.oracle_fail(f"a per-cell sigma with {sigma.shape[0]} entries is accepted although there are {n} cells "
+                        "(documented: one entry per cell, else ValueError)", p, signature="C01:per-cell-sigma-length")
+        return
     if type(pred).__name__ != expected_cls:
         res.oracle_fail(f"dispatch chose {type(pred).__name__}, expected {expected_cls}", p, signature="C01:dispatch")
     st = pred.to_dict()["data"]
@@ -187,6 +220,12 @@ def run_case(ctx, res, p):
     if family == "full":
         M = Kbb + Nmat if Lgiven is None else Lgiven @ Lgiven.T
         rhs = cu.as2d(Ycond) - mu
+    elif family == "lm" and per_cell:
+        # heteroscedastic inducing-point (DTC) conditional mean, built from the inputs only:
+        # (Kuu + jitter I + Kuf D^-1 Kfu) w = Kuf D^-1 (y - mu), D = diag(max(sigma_i^2, jitter)) on the cells
+        Kuf = cu.kernel_np(cov, Xu, X)
+        M = Kbb + jitter * np.eye(Kbb.shape[0]) + (Kuf / Dcell[None, :]) @ Kuf.T
+        rhs = (Kuf / Dcell[None, :]) @ (cu.as2d(Ycond) - mu)
     elif family == "lm":
         Lnp = np.linalg.cholesky(Kbb + jitter * np.eye(Kbb.shape[0]))
         Kuf = cu.kernel_np(cov, Xu, X)
@@ -310,7 +349,9 @@ def gen_case(rng, stream):
     cols = [1, 1, 2][rng.integers(3)]
     mu = float(rng.normal() * 2)
     y_is_mean = bool(rng.random() < 0.35)
-    nb = n if family == "full" else Xu.shape[0]
+    # length of a sigma vector: the cells for the full and the DTC family (the noise belongs to the observations), the
+    # landmarks for the Cholesky-latent family (there sigma is the standard deviation of the latent vector)
+    nb = Xu.shape[0] if family == "chol" else n
     sform = rng.integers(6)
     if sform == 0:
         sigma = 0.0
@@ -324,8 +365,10 @@ def gen_case(rng, stream):
         sigma = 0 if y_is_mean else None      # int zero as passed by the estimators / missing
     else:
         sigma = None if y_is_mean else loguniform(rng, 0.05, 1.0)
-    if family == "lm" and sigma is not None and np.ndim(sigma) > 0 and Xu.shape[0] != n and not y_is_mean:
-        pass  # per-landmark vector: accepted by the code (sized by m)
+    if family == "lm" and sigma is not None and np.ndim(sigma) > 0 and Xu.shape[0] != n and not y_is_mean \
+            and rng.random() < 0.12:
+        # one entry per LANDMARK instead of per cell: must be refused (ValueError)
+        sigma = np.exp(rng.uniform(np.log(0.5 * np.sqrt(jitter)), np.log(1.0), size=Xu.shape[0]))
     # uncertainty options must not change the conditional mean: with y_is_mean the regulariser stays jitter*I whatever
     # latent standard deviations / factor are passed along; for the full model without sigma the factor defines the noise
     unc = None
@@ -353,12 +396,108 @@ def gen_case(rng, stream):
             "Lgiven": bool(rng.random() < 0.25), "Xq": Xq, "stream": stream, "unc": unc}
 
 
+def percell_payloads():
+    """Always-run regression cases of the fixed defect 20d7957 (a per-cell sigma with landmarks was sized by the LANDMARKS:
+    refused for m != n, and for m = n silently attached to the landmarks): fixed data, a clearly non-constant per-cell sigma,
+    landmarks = cells in the given and in a permuted order (m = n), a subset (m < n) and a superset (m > n)."""
+    rng = np.random.default_rng(20260907)
+    out = []
+    for d, kind in ((2, "M52"), (1, "EQ")):
+        n = 8
+        X = rng.uniform(-1.5, 1.5, size=(n, d))
+        Xq = rng.uniform(-1.5, 1.5, size=(4, d))
+        Y = np.c_[np.sin(2 * X[:, 0]) + 0.3 * rng.normal(size=n), rng.normal(size=n)]
+        sg = np.exp(rng.uniform(np.log(0.05), np.log(0.8), size=n))
+        extra = rng.uniform(-1.5, 1.5, size=(3, d))
+        for name, Xu in (("m=n", X.copy()), ("m=n-permuted", X[::-1].copy()), ("m<n", X[:5].copy()),
+                         ("m>n", np.r_[X, extra])):
+            out.append({"op": "percell", "name": name, "tree": (kind, 1.0, ("AN",)), "X": X, "Xu": Xu, "Y": Y, "mu": 0.3,
+                        "jitter": 1e-6, "sigma": sg, "Xq": Xq})
+    return out
+
+
+def run_percell(ctx, res, p):
+    """DTC predictor with a per-cell sigma vector: (i) it is built for every number of landmarks; (ii) its prediction is the
+    heteroscedastic DTC conditional mean (numpy, from the inputs only); (iii) with the cells themselves as landmarks it
+    agrees with the full model up to O(jitter): (K~ + K D^-1 K)(w_full - w) = jitter * w_full."""
+    SIG = "C01:per-cell-sigma-landmarks"
+    tree = totuple(p["tree"])
+    X, Xu, Xq, Y = (np.asarray(p[k], float) for k in ("X", "Xu", "Xq", "Y"))
+    sg = np.asarray(p["sigma"], float)
+    mu, jitter = float(p["mu"]), float(p["jitter"])
+    n, m = X.shape[0], Xu.shape[0]
+    cov = cov_to_mellon(tree)
+    res.count("percell:" + p["name"])
+    canon = repr([(k, v.tobytes() if isinstance(v, np.ndarray) else v) for k, v in sorted(p.items())])
+    res.case(canon, True, {"op": "percell", "name": p["name"], "n": n, "m": m, "tree": cov_str(tree)})
+    try:
+        pred = cu.build_impl("plain", X, Xu, None, None, Y, mu, cov, None, None, sg, jitter, False, False)
+    except Exception as e:
+        res.oracle_fail(f"LandmarksConditional with a per-cell sigma vector ({n} cells, {m} landmarks) raised "
+                        f"{exc_class(e)}: {str(e)[:100]}", p, signature=SIG)
+        return
+    out = np.asarray(pred(Xq), float)
+    D = np.where(sg ** 2 < jitter, jitter, sg ** 2)
+    Kuu, Kuf, Kqu = cu.kernel_np(cov, Xu, Xu), cu.kernel_np(cov, Xu, X), cu.kernel_np(cov, Xq, Xu)
+    M = Kuu + jitter * np.eye(m) + (Kuf / D[None, :]) @ Kuf.T
+    r = Y - mu
+    ref = mu + Kqu @ np.linalg.solve(M, (Kuf / D[None, :]) @ r)
+    scale = max(float(np.max(np.abs(ref - mu))), 1e-300)
+    condM = max(np.linalg.cond(M), np.linalg.cond(Kuu + jitter * np.eye(m)))
+    tol = 1e3 * EPS * condM + 1e-10
+    dev = float(np.max(np.abs(out - ref))) / scale
+    res.dev("percell_vs_heteroscedastic_dtc_over_tol", dev / tol)
+    if dev > tol:
+        res.oracle_fail("DTC prediction with a per-cell sigma vector is not the heteroscedastic inducing-point conditional "
+                        "mean (Kuu + jitter I + Kuf D^-1 Kfu) w = Kuf D^-1 (y - mu)", p,
+                        detail={"rel_dev": dev, "tol": float(tol), "m": m, "n": n}, signature=SIG)
+    if m == n and np.array_equal(np.sort(Xu, axis=0), np.sort(X, axis=0)):
+        # landmarks = cells: the full conditional mean up to O(jitter)
+        Kxx, Kqx = cu.kernel_np(cov, X, X), cu.kernel_np(cov, Xq, X)
+        wf = np.linalg.solve(Kxx + np.diag(D), r)
+        full = mu + Kqx @ wf
+        # exact difference of the two models: K_qu (K~ + K D^-1 K)^-1 jitter w_full (rows in the order of the landmarks)
+        perm = [int(np.where((X == Xu[i]).all(axis=1))[0][0]) for i in range(m)]
+        gap = float(np.max(np.abs(Kqu @ np.linalg.solve(M, jitter * wf[perm]))))
+        devf = float(np.max(np.abs(out - full))) / scale
+        tolf = 100 * gap / scale + tol
+        res.dev("percell_vs_full_over_tol", devf / tolf)
+        res.dev("percell_vs_full_rel", devf)
+        if devf > tolf:
+            res.oracle_fail("with the cells as landmarks the DTC prediction with a per-cell sigma vector differs from the "
+                            "full conditional mean by more than O(jitter)", p,
+                            detail={"rel_dev": devf, "tol": float(tolf), "jitter": jitter}, signature=SIG)
+        try:
+            fullp = cu.build_impl("plain", X, None, None, None, Y, mu, cov, None, None, sg, jitter, False, False)
+            devi = float(np.max(np.abs(out - np.asarray(fullp(Xq), float)))) / scale
+            res.dev("percell_vs_FullConditional_over_tol", devi / tolf)
+            if devi > tolf:
+                res.oracle_fail("with the cells as landmarks LandmarksConditional and FullConditional disagree for a "
+                                "per-cell sigma vector by more than O(jitter)", p,
+                                detail={"rel_dev": devi, "tol": float(tolf)}, signature=SIG)
+        except Exception as e:
+            res.oracle_fail(f"FullConditional with a per-cell sigma raised {exc_class(e)}", p, signature="C01:build-raises")
+    # correspondence with the model
+    if ctx["driver"] is not None:
+        mod = cu.model_lm(ctx["driver"], tree, X, Xu, Y, mu, sg, jitter, None, False, False, Xq)
+        if mod["status"] != "ok":
+            res.corr_fail(f"model refuses ({mod['status']}) what the implementation accepts", p)
+        else:
+            devm = float(np.max(np.abs(mod["mean"].reshape(out.shape) - out))) / scale
+            res.dev("percell_model_vs_impl_over_tol", devm / tol)
+            if devm > tol:
+                res.corr_fail("model and implementation predictions differ (per-cell sigma, landmarks)", p,
+                              detail={"rel_dev": devm, "tol": float(tol)})
+
+
 def run(ctx, res):
     rng = ctx["rng"]
     quick = ctx["tier"] == "quick"
     budget = ctx["budget"] or (60 if quick else 540)
     t_end = time.time() + budget
     mellon()
+    for p in percell_payloads():
+        run_case(ctx, res, p)
     i = 0
     while time.time() < t_end:
         run_case(ctx, res, gen_case(rng, "sharp" if i % 3 != 2 else "wide"))
